@@ -366,7 +366,11 @@ func formatPostingWithOpts(posting *ast.Posting, alignment AlignmentInfo, commod
 	}
 
 	if posting.Comment != "" {
-		sb.WriteString("  ; ")
+		// the comment text keeps the blank that followed its semicolon
+		sb.WriteString("  ;")
+		if !strings.HasPrefix(posting.Comment, " ") {
+			sb.WriteString(" ")
+		}
 		sb.WriteString(posting.Comment)
 	}
 
